@@ -132,7 +132,7 @@ def r01_a(prog: Program, chk: Check) -> None:
 
 
 def r01_b(prog: Program, chk: Check) -> None:
-    chk.rule("R01.b", "every ast.expr kind is typed by a visit_* method of the main visitor", floor=25)
+    chk.rule("R01.b", "every ast.expr kind is typed by a visit_* method of the main visitor", floor=18)
     have = visitor_methods(prog, "NameCheckVisitor")
     for kind in grammar("expr"):
         chk.ob("R01.b", f"name_check_visitor::NameCheckVisitor::visit_{kind}", kind in have, "pyanalyze/name_check_visitor.py", f"ast.{kind} has no visit_{kind}: the expression is typed as (void) instead of a type containing its value")
